@@ -9,7 +9,7 @@ R3 the span list is root-to-leaf
 """
 from rulekit import Facts, where
 from rulekit.sym import PathEval, show
-from rulekit.query import guards_of, loop_body_always_calls
+from rulekit.query import guards_of, loop_body_always_calls, option_test
 
 J = "tracing_subscriber::fmt::format::json::"
 FE = "tracing_subscriber::fmt::format::FormatEvent"
@@ -350,10 +350,38 @@ def r2(ck, F):
         has_parse = any(t["callee"].get("path", "").startswith("serde_json::de::from_str") for bb, t in ss.calls())
         ent = [bb for bb, t in ss.calls() if t["callee"].get("method") == "serialize_entry"]
         end = [bb for bb, t in ss.calls() if t["callee"].get("method") == "end" and t["callee"].get("trait", "").endswith("SerializeMap")]
-        if has_parse and ent and len(end) == 1:
+        # every Ok path closes the map once; every path on which the span has stored fields re-parses them
+        probs = []
+        n_ok = 0
+        for p in PathEval(ss).run():
+            if p.end != "return":
+                continue
+            ms = [c[1].get("method") for c in p.calls]
+            if "end" not in ms:
+                continue            # an error return of `?`
+            n_ok += 1
+            if ms.count("end") != 1:
+                probs.append("a path closes the map %d times" % ms.count("end"))
+            absent = any(option_test(c)[1] is False and "get(" in show(c[0]) for c in p.conds)
+            parsed = any((c[1].get("path") or "").startswith("serde_json::de::from_str") for c in p.calls)
+            if not absent and not parsed:
+                probs.append("a path with stored fields writes the span without re-parsing them")
+            if "serialize_entry" not in ms:
+                probs.append("a path writes no entry (not even the span's name)")
+        if has_parse and ent and n_ok and not probs:
             ck.ok("C14.R2", "span objects are re-parsed from the stored fields and emitted through serialize_entry", fn=ss.path)
         else:
-            ck.bad("C14.R2", "span objects are re-parsed from the stored fields and emitted through serialize_entry", where(ss.raw["sp"]), "calls %s" % names[:12], fn=ss.path)
+            ck.bad("C14.R2", "span objects are re-parsed from the stored fields and emitted through serialize_entry", where(ss.raw["sp"]), "; ".join(sorted(set(probs))) or "calls %s" % names[:12], fn=ss.path)
+        # ... and a span this subscriber holds no stored fields for (created before the subscriber saw it: a reload swapped
+        # the JSON subscriber in while the span was open) is written without them, as the text formatters do -- not a panic
+        key = "a span without stored fields is written, not a panic"
+        musts = [(bb, t) for bb, t in ss.calls() if t["callee"].get("method") in ("expect", "unwrap") and "Option" in str(t["callee"].get("path"))
+                 and ss.origin(t["argv"][0])[0] == "call" and str(ss.origin(t["argv"][0])[2]["callee"].get("path", "")).endswith("Extensions::<'a>::get")]
+        if musts:
+            ck.bad("C14.R2", key, where(musts[0][1]["sp"]), "SerializableSpan::serialize %ss the span's FormattedFields extension: every record emitted inside a span that was opened "
+                   "before this subscriber was installed (reload, None -> Some) panics in the formatter and is lost" % musts[0][1]["callee"].get("method"), fn=ss.path)
+        else:
+            ck.ok("C14.R2", key, fn=ss.path)
 
 
 def r3(ck, F):
